@@ -1,11 +1,13 @@
 use crate::core::Property;
 
+pub mod c05;
 pub mod c08;
 pub mod c09;
 pub mod c10;
 pub mod c12;
 pub mod c13;
+pub mod c14;
 
 pub fn all() -> Vec<Property> {
-    vec![c08::property(), c09::property(), c10::property(), c12::property(), c13::property()]
+    vec![c05::property_c05(), c05::property_c18(), c08::property(), c09::property(), c10::property(), c12::property(), c13::property(), c14::property()]
 }
